@@ -427,11 +427,14 @@ impl C11 {
         if max_outstanding.get() >= 3 {
             rep.labels.push("outstanding>=3");
         }
+        if max_outstanding.get() > 128 {
+            rep.labels.push("outstanding>128");
+        }
         rep.nontrivial = max_outstanding.get() >= 3;
     }
 }
 
-struct_property!(C11, "C11", "tape -> wide fan-out universe (root with 1..8 requirements, solvables with up to 6 requirements/constrains, unions) + generated completion order, every provider call gated; at EVERY quiescent point (root future pending and not self-woken) the invariant is evaluated: every package name mentioned by the root's requirements/constraints or by any Known dependency result already delivered to the solver has had get_candidates issued; at the first quiescent point exactly the root's distinct candidate requests are in flight. Non-trivial: some quiescent point had >=3 candidate requests outstanding. Distinct = distinct hash of case.");
+struct_property!(C11, "C11", "tape -> wide fan-out universe (root with 1..8 requirements, solvables with up to 6 requirements/constrains, unions, soft requirements; stage wide: 130..220 packages and a root with 300..420 requirements, so that well over 128 candidate requests have to be in flight together) + generated completion order, every provider call gated; at EVERY quiescent point (root future pending and not self-woken) the invariant is evaluated: every package name mentioned by the root's requirements/constraints or by any Known dependency result already delivered to the solver has had get_candidates issued; at the first quiescent point exactly the root's distinct candidate requests are in flight. Non-trivial: some quiescent point had >=3 candidate requests outstanding. Distinct = distinct hash of case.", |s: &C11| if s.stage == "wide" { 9000usize } else { 1600 });
 
 // =============================================================================== C12
 
